@@ -45,6 +45,47 @@ class Solver:
         self.stats = stats or Stats()
         self.defs_emitted = set()
         self.keep_sample = True
+        self.path = []
+
+    def add_path(self, taken):
+        """assert the path condition [(cond, decision)] of the current symbolic run (base scope)"""
+        self.path = list(taken)
+        for c, dec in taken:
+            for a in _cond_atoms(c):
+                self._ensure_atom(a)
+            t = self.cond_term(c)
+            self.s.add(t if dec else z3.Not(t))
+
+    def _ensure_atom(self, a):
+        todo = [a]; seen = set()
+        while todo:
+            x = todo.pop()
+            if x in seen:
+                continue
+            seen.add(x)
+            self.var(x)
+            k = P.ATOMS.kind[x]
+            if k in ('sqrt', 'inv', 'abs', 'opq'):
+                todo.extend(P.ATOMS.info[x].atoms())
+            elif k == 'ite':
+                c, p, q = P.ATOMS.info[x]
+                todo.extend(p.atoms()); todo.extend(q.atoms()); todo.extend(_cond_atoms(c))
+
+    def nice_model(self, extra, atoms, grid=(-1, Fraction(-1, 2), 0, Fraction(1, 2), 1)):
+        """a model of the base assertions + extra in which the given atoms take values on a coarse dyadic grid
+        (so that the floating-point replay evaluates data-dependent branches exactly as the rational model does)"""
+        self.s.push()
+        try:
+            self.s.add(extra)
+            for a in atoms:
+                v = self.var(a)
+                self.s.add(z3.Or([v == z3.RealVal(g) for g in grid]))
+            if str(self.s.check()) != 'sat':
+                return None
+            m = self.s.model()
+            return {a: _z3_to_frac(m.eval(v, model_completion=True)) for a, v in self.vars.items()}
+        finally:
+            self.s.pop()
 
     def set_box(self, atom, lo, hi):
         self.box[atom] = (Fraction(lo), Fraction(hi))
@@ -203,6 +244,8 @@ class Solver:
                 for a, v in self.vars.items():
                     val = m.eval(v, model_completion=True)
                     model[a] = _z3_to_frac(val)
+                if self.path:
+                    self._last_query = z3.Or(term > thr, term < -thr)
             elif rs == 'unsat':
                 st.unsat += 1
             else:
@@ -274,3 +317,11 @@ def _cond_atoms(c):
     if c.op == 'not':
         return _cond_atoms(c.a)
     return list(c.a.atoms()) + list(c.b.atoms())
+
+
+def feasible(taken, timeout_ms=5000):
+    """is the conjunction of (cond, decision) pairs satisfiable over the atom boxes? (unknown counts as feasible)"""
+    sv = Solver(timeout_ms=timeout_ms, stats=Stats())
+    sv.keep_sample = False
+    sv.add_path(taken)
+    return str(sv.s.check()) != 'unsat'
